@@ -489,7 +489,7 @@ impl KernelBounds {
             Tier::Thorough => KernelBounds {
                 seq_len: 4,
                 prefix_len: 2,
-                ctl_len: 6,
+                ctl_len: 5,
                 skel_slots: 4,
             },
         }
